@@ -674,6 +674,9 @@ func (r *Run) havocLoop(st *State, fr *Frame, li *LoopInfo) {
 		case ssa.CallInstruction:
 			cn := strings.ReplaceAll(e.calleeName(x.Common()), "github.com/joeycumines/go-bigbuff.", "")
 			regions["counter:calls:"+cn] = true
+			if cn == "(reflect.Value).Set" {
+				regions["counter:calls:rvset"] = true // the ghost counter icalls("rvset") of the reflect specification
+			}
 			r.scanCallEffects(f, fn, x, binds, regions, &all, addCell, scanFn)
 		case *ssa.Send:
 			regions["chan."] = true
